@@ -11,6 +11,21 @@ Require Import Nib.Gen.C17Facts Nib.C17.Current Nib.C17.IcaList.
 Theorem C17_current_cfg_ok : cfg_okb current_cfg = true.
 Proof. vm_compute. reflexivity. Qed.
 
+(** … and the same holds of the configuration applied to gentxs at block height 0. *)
+Theorem C17_current_genesis_cfg_ok : cfg_okb current_genesis_cfg = true.
+Proof. vm_compute. reflexivity. Qed.
+
+Theorem C17_holds_from_genesis_on_current_tree :
+  forall (w : world) (minr : Z) (gentxs : list tx) (s1 : st) (dt : Z) (h : list event),
+    ica_safe w -> gov_trusted current_cfg h ->
+    run_genesis current_genesis_cfg w (st0 minr) gentxs = Some s1 ->
+    cap_ok (run_history current_cfg w (advance s1 dt) h).
+Proof.
+  intros w minr gentxs s1 dt h Hi Hg. apply C17_cap_from_genesis; auto;
+    apply C17_cfg_checker_sound; [exact C17_current_cfg_ok|exact C17_current_genesis_cfg_ok].
+Qed.
+Print Assumptions C17_holds_from_genesis_on_current_tree.
+
 (** Routing by extension option: none -> non-EVM chain, the EVM option -> EVM chain, anything else -> reject. *)
 Theorem C17_current_routing :
   route_of ext_switch NoExt = RouteNonEVM /\ route_of ext_switch EvmExt = RouteEVM /\
